@@ -174,6 +174,9 @@ pub struct MacroDefinition {
     block: Vec<Token>,
 }
 
+/// The maximum nesting depth of macro invocations
+const MAX_MACRO_DEPTH: usize = 32;
+
 pub struct CodegenContext {
     tree: Arc<ParseTree>,
     options: CodegenOptions,
@@ -198,6 +201,9 @@ pub struct CodegenContext {
     /// The names of the files that are currently being emitted (the main file and any nested imports),
     /// used to detect circular imports
     import_stack: Vec<String>,
+
+    /// How deeply macro invocations are currently nested, used to detect runaway macro recursion
+    macro_depth: usize,
 
     test_elements: Vec<TestElement>,
 
@@ -246,6 +252,7 @@ impl CodegenContext {
             current_scope_nx: SymbolIndex::new(0),
             next_macro_scope_id: 0,
             import_stack: vec![],
+            macro_depth: 0,
             test_elements: vec![],
             source_map: SourceMap::default(),
         }
@@ -1027,7 +1034,19 @@ impl CodegenContext {
                         Identifier::new(format!("$macro_{}", self.next_macro_scope_id));
                     self.next_macro_scope_id += 1;
 
-                    self.with_scope(&macro_scope, None, |s| {
+                    // A macro that keeps invoking itself would otherwise recurse until the stack overflows
+                    if self.macro_depth >= MAX_MACRO_DEPTH {
+                        return Err(Diagnostic::error()
+                            .with_message(format!(
+                                "macro invocations are nested more than {} levels deep (does macro '{}' invoke itself?)",
+                                MAX_MACRO_DEPTH, name.data
+                            ))
+                            .with_labels(vec![name.span.to_label()])
+                            .into());
+                    }
+                    self.macro_depth += 1;
+
+                    let result = self.with_scope(&macro_scope, None, |s| {
                         for (idx, arg_name) in def.args.iter().enumerate() {
                             let (expr, _) = args.get(idx).unwrap();
 
@@ -1052,7 +1071,9 @@ impl CodegenContext {
                         }
 
                         Ok(())
-                    })?;
+                    });
+                    self.macro_depth -= 1;
+                    result?;
                 } else {
                     self.undefined.insert(UndefinedSymbol {
                         scope_nx: self.current_scope_nx,
